@@ -19,7 +19,7 @@ Every transformation preserves behaviour; whatever does not fit is left untouche
 Applied functions are listed in Mod.norm_log and end up in the evidence."""
 import ast, copy
 
-MAX_UNROLL = 8
+MAX_UNROLL = 16
 
 
 # ------------------------------------------------------------------------------------------------ small helpers
@@ -44,7 +44,8 @@ def _pure(e):
     """side-effect free and cheap to duplicate"""
     for n in ast.walk(e):
         if not isinstance(n, (ast.Name, ast.Attribute, ast.Constant, ast.Tuple, ast.List, ast.Subscript, ast.BinOp, ast.UnaryOp,
-                              ast.Load, ast.operator, ast.unaryop, ast.Slice, ast.expr_context)):
+                              ast.Load, ast.operator, ast.unaryop, ast.Slice, ast.expr_context, ast.Compare, ast.BoolOp,
+                              ast.cmpop, ast.boolop)):
             return False
     return True
 
@@ -539,9 +540,24 @@ class _Unroll(ast.NodeTransformer):
                 m = dict(zip(names, el.elts))
             for s in _subst(n.body, m):
                 s = self.visit(ast.fix_missing_locations(s))
-                out.extend(s if isinstance(s, list) else [s])
+                for s1 in (s if isinstance(s, list) else [s]):
+                    r1 = _FoldIf().visit(s1)         # a table column of True / False decides its `if` in each copy
+                    out.extend(r1 if isinstance(r1, list) else [r1])
         self.log.append(("unroll", ast.unparse(n.target) + " in " + ast.unparse(n.iter)[:60]))
         return out
+
+
+class _FoldIf(ast.NodeTransformer):
+    def visit_If(self, n):
+        self.generic_visit(n)
+        if not n.body:
+            n.body = [ast.copy_location(ast.Pass(), n)]
+        if isinstance(n.test, ast.Constant) and isinstance(n.test.value, bool):
+            return (n.body if n.test.value else n.orelse) or []
+        return n
+
+    def visit_FunctionDef(self, n):
+        return n
 
 
 def _unroll_fn(f, log):
